@@ -241,11 +241,15 @@ def tcList (file : FileId) : List Expr → ResList
 end
 
 mutual
-/-- closed = mentions no parameter / physical field: the model's stand-in for
-`ir_util.is_constant` after `compute_constants` (constant folding itself is C05's). -/
+/-- closed = mentions no parameter, physical field or builtin (`constant_value` gives `None`
+for each of them), however deep and through references: the model's stand-in for
+`ir_util.is_constant` / `type.boolean.has_field("value")` after `compute_constants`.  The two
+agree except on values that the three-valued `&&`/`||`/`?:` folding or the bounds analysis
+makes constant although they mention a field (`false && x == 1`, `$upper_bound(x)`, a static
+reference to `let v = x * 0`); those are C05's and kept out of the correspondence. -/
 def closed : Expr → Bool
   | .num _ | .boolc _ | .enumv _ _ => true
-  | .builtin _ _ => true
+  | .builtin _ _ => false
   | .cphys .. | .cother _ | .lparam .. | .lparamArr _ | .lphys .. => false
   | .cvirt _ _ d | .lvirt _ _ d => closed d
   | .bin _ _ a b => closed a && closed b
